@@ -81,6 +81,7 @@ func runCheck(o checkOpts) int {
 	timeout := timeoutFor(o.tier)
 
 	var obs []*Obligation
+	var findingLemmas []*LemmaResult
 	var engineErrs []string
 	trusted := map[string]bool{}
 	var funcsUnder []string
@@ -97,6 +98,11 @@ func runCheck(o checkOpts) int {
 			continue
 		}
 		lemmaRes[lm.Name] = r
+		if lm.Finding != "" {
+			// the full statement, known to be false on the pinned tree: not a proof obligation
+			findingLemmas = append(findingLemmas, r)
+			continue
+		}
 		obs = append(obs, r.Ob)
 	}
 	// axioms of lemmas are available to every function (they are checked above or by the property they serve)
@@ -188,6 +194,15 @@ func runCheck(o checkOpts) int {
 	}
 	os.MkdirAll(replayDir, 0o755)
 
+	// lemmas that state a property in full although a known finding refutes it
+	stillRefuted := map[string]bool{}
+	for _, fr := range findingLemmas {
+		if fr.HasWit {
+			stillRefuted[fr.Lemma.Finding] = true
+		} else {
+			fmt.Printf("NOTE: lemma %s now holds in full; known finding %s is no longer present in the code\n", fr.Lemma.Name, fr.Lemma.Finding)
+		}
+	}
 	// known findings: replay the witness on the real code
 	var knownLines []string
 	for _, f := range kf.Findings {
